@@ -330,7 +330,7 @@ class FrameSequence:
         """Get a frame by index or distance."""
         if isinstance(item, int):
             return self.frames[item]
-        distance = item.to(unit='m')
+        distance = item.to(unit='m', dtype='float64')
         frame_before_detector = None
         for frame in self:
             if frame.distance > distance:
